@@ -3779,12 +3779,15 @@ XPath::findAttributes(
 
             if (nAttrs != 0)
             {
+                // The step type can also be eMATCH_ATTRIBUTE, when a match
+                // pattern with a positional predicate is re-evaluated from
+                // the parent, but the nodes tested are always attributes.
                 const NodeTester    theTester(
                                 *this,
                                 executionContext,
                                 opPos,
                                 argLen,
-                                stepType);
+                                XPathExpression::eFROM_ATTRIBUTES);
 
                 for (XalanSize_t j = 0; j < nAttrs; j++)
                 {
